@@ -53,6 +53,7 @@ struct SinkSt<T> {
     closed: bool,
     stalled: bool,       // answers Pending (and keeps the waker) until `recover`
     stalled_flush: bool, // answers Pending to poll_flush / poll_close only (back-pressure while there is still buffer space)
+    stalled_ready: bool, // answers Pending to poll_ready only (no buffer space, but what was written is flushed at once)
     broken: bool,        // answers Err from now on
     reject_next: bool,   // the next start_send answers Err (item-level rejection), the sink stays usable
     ever_failed: bool,
@@ -72,7 +73,7 @@ impl<T> Sink<T> for MockSink<T> {
             s.ever_failed = true;
             return Poll::Ready(Err(MockErr));
         }
-        if s.stalled {
+        if s.stalled || s.stalled_ready {
             s.waker = Some(cx.waker().clone());
             return Poll::Pending;
         }
@@ -136,7 +137,7 @@ impl<T> Clone for SinkH<T> {
 }
 impl<T: Send + 'static> SinkH<T> {
     fn new() -> (Self, Pin<Box<dyn Sink<T, Error = MockErr> + Send>>) {
-        let st = Arc::new(Mutex::new(SinkSt { got: vec![], flushed: 0, closed: false, stalled: false, stalled_flush: false, broken: false, reject_next: false, ever_failed: false, ready: false, start_without_ready: false, waker: None }));
+        let st = Arc::new(Mutex::new(SinkSt { got: vec![], flushed: 0, closed: false, stalled: false, stalled_flush: false, stalled_ready: false, broken: false, reject_next: false, ever_failed: false, ready: false, start_without_ready: false, waker: None }));
         (SinkH(st.clone()), Box::pin(MockSink(st)))
     }
     fn stall(&self) {
@@ -144,6 +145,9 @@ impl<T: Send + 'static> SinkH<T> {
     }
     fn stall_flush(&self) {
         self.0.lock().unwrap().stalled_flush = true;
+    }
+    fn stall_ready(&self) {
+        self.0.lock().unwrap().stalled_ready = true;
     }
     fn reject_next(&self) {
         self.0.lock().unwrap().reject_next = true;
@@ -153,6 +157,7 @@ impl<T: Send + 'static> SinkH<T> {
             let mut s = self.0.lock().unwrap();
             s.stalled = false;
             s.stalled_flush = false;
+            s.stalled_ready = false;
             s.waker.take()
         };
         if let Some(w) = w {
@@ -173,6 +178,7 @@ impl<T: Send + 'static> SinkH<T> {
 }
 
 struct StreamSt<T> {
+    taken: usize, // how many items the router has taken from this stream
     q: VecDeque<SResult<T>>,
     ended: bool,
     waker: Option<Waker>,
@@ -184,6 +190,7 @@ impl<T> Stream for MockStream<T> {
         CALLS.fetch_add(1, Ordering::Relaxed);
         let mut s = self.0.lock().unwrap();
         if let Some(x) = s.q.pop_front() {
+            s.taken += 1;
             return Poll::Ready(Some(x));
         }
         if s.ended {
@@ -201,7 +208,7 @@ impl<T> Clone for StreamH<T> {
 }
 impl<T: Send + 'static> StreamH<T> {
     fn new() -> (Self, BoxStream<'static, SResult<T>>) {
-        let st = Arc::new(Mutex::new(StreamSt { q: VecDeque::new(), ended: false, waker: None }));
+        let st = Arc::new(Mutex::new(StreamSt { taken: 0, q: VecDeque::new(), ended: false, waker: None }));
         (StreamH(st.clone()), Box::pin(MockStream(st)))
     }
     fn push(&self, x: SResult<T>) {
@@ -271,7 +278,7 @@ fn pubsub_scenario(seed: u64, log: &mut Vec<String>) -> Result<(), (String, &'st
     let mut r = Rng(seed.wrapping_mul(0x9E3779B97F4A7C15) | 1);
     let (topic, mut tx): (pubsub::Topic<u64, MockErr>, Sender<pubsub::Socket<u64, MockErr>>) = pubsub::Topic::pair();
     let mut ex = Exec::new(topic);
-    let spin = |e: String| (e, "C09");
+    let spin = |e: String| (e, "C09 GEN");
     struct Sub {
         h: SinkH<u64>,
         reg_mark: usize,
@@ -291,8 +298,13 @@ fn pubsub_scenario(seed: u64, log: &mut Vec<String>) -> Result<(), (String, &'st
             12 => {
                 if subs.len() > 1 {
                     let i = 1 + r.below(subs.len() as u64 - 1) as usize;
-                    log.push(format!("subscriber {i} stops flushing (still has buffer space)"));
-                    subs[i].h.stall_flush();
+                    if r.below(2) == 0 {
+                        log.push(format!("subscriber {i} stops flushing (still has buffer space)"));
+                        subs[i].h.stall_flush();
+                    } else {
+                        log.push(format!("subscriber {i} has no buffer space left (not ready, flushes at once)"));
+                        subs[i].h.stall_ready();
+                    }
                 }
             }
             13 => {
@@ -391,6 +403,27 @@ fn pubsub_scenario(seed: u64, log: &mut Vec<String>) -> Result<(), (String, &'st
     if r.below(3) == 0 {
         // shutdown in the middle of traffic: whatever was taken from a publisher must be with every healthy subscriber, flushed,
         // when the router finishes; it must finish once the subscribers accept data
+        if subs.len() > 1 && r.below(2) == 0 {
+            // back-pressure at the moment of shutdown: a subscriber is not ready while a publisher still has something to say
+            let i = 1 + r.below(subs.len() as u64 - 1) as usize;
+            if r.below(2) == 0 {
+                subs[i].h.stall();
+            } else {
+                subs[i].h.stall_ready();
+            }
+            let live: Vec<usize> = (0..pubs.len()).filter(|&i| !pubs[i].2).collect();
+            if !live.is_empty() {
+                let p = live[r.below(live.len() as u64) as usize];
+                for _ in 0..2 {
+                    let v = (p as u64) * 1_000_000 + pubs[p].1;
+                    pubs[p].1 += 1;
+                    pushed.push(v);
+                    pubs[p].0.push(Ok(v));
+                }
+                log.push(format!("subscriber {i} is not ready; publisher {p} sends 2 messages"));
+                ex.run().map_err(spin)?;
+            }
+        }
         log.push("the registration channel is closed while traffic is in flight; then every subscriber accepts data".into());
         tx.close_channel();
         drop(tx);
@@ -403,6 +436,11 @@ fn pubsub_scenario(seed: u64, log: &mut Vec<String>) -> Result<(), (String, &'st
             return Err(("the registration channel was closed and every subscriber accepts data, yet the router did not finish".into(), "C16"));
         }
         let global = subs[0].h.0.lock().unwrap().got.clone();
+        // everything the router took from a publisher has reached the always-healthy first subscriber
+        let taken: usize = pubs.iter().map(|p| p.0 .0.lock().unwrap().taken).sum();
+        if global.len() != taken {
+            return Err((format!("after shutdown in mid-traffic: the router took {taken} message(s) from its publishers but the always-healthy first subscriber holds {} when the router finished", global.len()), "C16 C01"));
+        }
         for (i, s) in subs.iter().enumerate() {
             let st = s.h.0.lock().unwrap();
             if st.broken || st.ever_failed {
@@ -523,7 +561,7 @@ fn reqrep_scenario(seed: u64, log: &mut Vec<String>) -> Result<(), (String, &'st
     let mut r = Rng(seed.wrapping_mul(0xD1B54A32D192ED03) | 1);
     let (topic, mut tx): (reqrep::Topic<MockErr>, Sender<reqrep::Socket<MockErr>>) = reqrep::Topic::pair();
     let mut ex = Exec::new(topic);
-    let spin = |e: String| (e, "C09");
+    let spin = |e: String| (e, "C09 GEN");
     let new_replier = |tx: &mut Sender<reqrep::Socket<MockErr>>| -> Replier {
         let (sh, s) = SinkH::new();
         let (th, t) = StreamH::new();
@@ -547,7 +585,7 @@ fn reqrep_scenario(seed: u64, log: &mut Vec<String>) -> Result<(), (String, &'st
     let pump = |ex: &mut Exec<reqrep::Topic<MockErr>>, bound: &mut Replier, seen: &mut Vec<(usize, Vec<u8>)>| -> Result<(), (String, &'static str)> {
         // run the router and let the replier answer until nothing moves
         for _ in 0..1000 {
-            ex.run().map_err(|e| (e, "C09"))?;
+            ex.run().map_err(|e| (e, "C09 GEN"))?;
             let got = bound.serve();
             if got.is_empty() {
                 return Ok(());
@@ -656,6 +694,28 @@ fn reqrep_scenario(seed: u64, log: &mut Vec<String>) -> Result<(), (String, &'st
                     }
                 }
             }
+            10 if r.below(2) == 0 => {
+                // several replies written while their requestors' flushes are held up, released one after the other
+                let live: Vec<usize> = (0..reqs.len()).filter(|&i| !reqs[i].gone).collect();
+                if live.len() >= 2 {
+                    pump(&mut ex, &mut bound, &mut seen_by_replier)?;
+                    log.push(format!("requestors {:?} stop flushing; each sends a request; then they flush again one by one", live));
+                    for &i in &live {
+                        reqs[i].sink.stall_flush();
+                    }
+                    for &i in &live {
+                        counter += 1;
+                        let body = format!("q{counter}-from-{i}").into_bytes();
+                        reqs[i].sent.push(body.clone());
+                        reqs[i].stream.push(Ok(Frame::Message(MessagePayload { headers: None, message: Bytes::from(body) })));
+                        pump(&mut ex, &mut bound, &mut seen_by_replier)?;
+                    }
+                    for &i in &live {
+                        reqs[i].sink.recover();
+                        ex.run().map_err(spin)?;
+                    }
+                }
+            }
             10 => {
                 if r.below(2) == 0 {
                     log.push("the replier stalls briefly".into());
@@ -687,7 +747,8 @@ fn reqrep_scenario(seed: u64, log: &mut Vec<String>) -> Result<(), (String, &'st
         let seen: Vec<&Vec<u8>> = seen_by_replier.iter().filter(|(c, _)| *c == i).map(|(_, b)| b).collect();
         let sent: Vec<&Vec<u8>> = q.sent.iter().collect();
         if seen != sent {
-            return Err((format!("requestor {i} sent {} request(s) while a replier was bound; the replier saw {} tagged with its id (a request was lost, duplicated, reordered or attributed to another requestor)", sent.len(), seen.len()), "C02"));
+            let p = if reqs.iter().any(|q| q.gone) { "C02 C08" } else { "C02" };
+            return Err((format!("requestor {i} sent {} request(s) while a replier was bound; the replier saw {} tagged with its id (a request was lost, duplicated, reordered or attributed to another requestor{})", sent.len(), seen.len(), if p.len() > 3 { "; another requestor had left before" } else { "" }), p));
         }
         let st = q.sink.0.lock().unwrap();
         if st.start_without_ready {
@@ -705,7 +766,7 @@ fn reqrep_scenario(seed: u64, log: &mut Vec<String>) -> Result<(), (String, &'st
             return Err((format!("a reply reached requestor {i} with the server's routing tag still on it"), "C02"));
         }
         if !q.gone && st.flushed != st.got.len() {
-            return Err((format!("{} repl(ies) handed to requestor {i} were never flushed", st.got.len() - st.flushed), "C09"));
+            return Err((format!("{} repl(ies) handed to requestor {i} were never flushed", st.got.len() - st.flushed), "C02 C09"));
         }
     }
     // C10: every late replier was told code 5 and closed; it received no request
@@ -767,7 +828,7 @@ fn run_one(family: &str, seed: u64) -> Result<(), (String, String, Vec<String>)>
         Ok(Err((e, p))) => Err((e, p.to_string(), log)),
         Err(e) => {
             let m = e.downcast_ref::<String>().cloned().or_else(|| e.downcast_ref::<&str>().map(|s| s.to_string())).unwrap_or_default();
-            Err((format!("the router panicked: {m}"), "C08 C11".to_string(), log))
+            Err((format!("the router panicked: {m}"), "C08 C11 GEN".to_string(), log))
         }
     }
 }
@@ -803,7 +864,7 @@ fn main() {
         for seed in (block * 4000 + 1)..=(block * 4000 + 4000) {
             if let Err((e, props, log)) = run_one(fam, seed) {
                 // a panic or a busy loop concerns every router property; otherwise only the property the oracle states
-                let general = props.contains("C08") || props.contains("C09");
+                let general = props.contains("GEN");
                 if want.as_deref().map_or(true, |p| props.split(' ').any(|x| x == p) || (general && ["C08", "C09", "C11", "C16", "C01", "C02", "C10"].contains(&p))) {
                     show(fam, seed, &e, &log);
                     std::process::exit(1);
